@@ -99,6 +99,8 @@ def check_case(case):
     from mistletoe import Document
     try:
         with renderers.make('Toc', {'depth': depth, 'omit_title': omit, 'filter_conds': conds}) as r:
+            if int(case.get('tape', '0')[:1] or '0', 16) % 2:
+                r.render(Document(OTHER_DOC))          # the renderer has been used before: the table is that of the last document
             r.render(Document(text))
             toc = r.toc
             got = []
@@ -113,6 +115,7 @@ def check_case(case):
     return Out(nt=nt, labels=labels)
 
 
+OTHER_DOC = '# Earlier title\n\n## Earlier section\n\ntext\n\n### Earlier sub\n'
 FILTER_WORDS = ['alpha', 'Intro', 'x', 'Part', 'API', 'notes']
 
 
@@ -121,7 +124,7 @@ class Documents(HypPart):
     budget = {'quick': 30000, 'thorough': 1500000}
     rule = ('G4 documents whose headings (ATX and setext, at top level and inside quotes / list items) form an outline with plain-word '
             'titles optionally wrapped in emphasis, strong, code or link markup; x depth 1-6 x omit_title x up to 2 filter predicates '
-            '(contains / startswith / length parity) x shallowest level 1-3; expected entries computed from the model; non-trivial = '
+            '(contains / startswith / length parity) x shallowest level 1-3 x renderer fresh or used for another document before; expected entries computed from the model; non-trivial = '
             '>= 3 qualifying headings on >= 2 levels with >= 1 filtered out; distinct = distinct (tape, options)')
     required_labels = {'some-filtered-out': 0.1, 'omit_title:False': 0.2, 'base:2': 0.1}
 
